@@ -37,7 +37,7 @@ def run(ck):
             ck.observe("reach-hook-unavailable:" + args[2])
     try:
         i = 0
-        while not ck.out_of_time():
+        while ck.more(min_cases=160):
             i += 1
             if not ck.mine(i):
                 continue
